@@ -23,3 +23,55 @@ MUTANTS = [
     {"id": "C08-benign-min-max-instead-of-clamp", "prop": "C08", "benign": True,
      "edits": [("src/surface.rs", "        Bound::Excluded(start) => position(*start).saturating_add(1),\n    }\n    .clamp(0, size);", "        Bound::Excluded(start) => position(*start).saturating_add(1),\n    }\n    .max(0)\n    .min(size);")]},
 ]
+
+# ---- behaviour-preserving refactorings the rules must see through (robustness round) ----
+_UNS = "                    if index >= size {\n                        None\n                    } else {\n                        Some((index, index + 1))\n                    }"
+_SGN = "                    if index < -size || index >= size {\n                        None\n                    } else {\n                        let start = if index < 0 { index + size } else { index };\n                        Some((start as usize, start as usize + 1))\n                    }"
+_RB_TAIL = "    if end <= start {\n        None\n    } else {\n        Some((start as usize, end as usize))\n    }"
+
+MUTANTS += [
+    # `cond.then(|| window)`: lazy closure, the postcondition is that of the branch
+    {"id": "C08-benign-unsigned-then-closure", "prop": "C08", "benign": True,
+     "edits": [("src/surface.rs", _UNS, "                    (index < size).then(|| (index, index + 1))")]},
+    {"id": "C08-unsigned-then-closure-le", "prop": "C08", "expect": "POST",
+     "edits": [("src/surface.rs", _UNS, "                    (index <= size).then(|| (index, index + 1))")]},
+    # `cond.then_some(window)` in range_bounds
+    {"id": "C08-benign-range-bounds-then-some", "prop": "C08", "benign": True,
+     "edits": [("src/surface.rs", _RB_TAIL, "    (start < end).then_some((start as usize, end as usize))")]},
+    {"id": "C08-range-bounds-then-some-le", "prop": "C08", "expect": "POST",
+     "edits": [("src/surface.rs", _RB_TAIL, "    (start <= end).then_some((start as usize, end as usize))")]},
+    # De Morgan + swapped branches + commuted additions in the signed index
+    {"id": "C08-benign-signed-de-morgan", "prop": "C08", "benign": True,
+     "edits": [("src/surface.rs", _SGN, "                    if index >= -size && size > index {\n                        let start = if index >= 0 { index } else { size + index };\n                        Some((start as usize, 1 + start as usize))\n                    } else {\n                        None\n                    }")]},
+    # early return, result through a local
+    {"id": "C08-benign-unsigned-early-return", "prop": "C08", "benign": True,
+     "edits": [("src/surface.rs", _UNS, "                    if size <= index {\n                        return None;\n                    }\n                    let window = (index, index + 1);\n                    Some(window)")]},
+    # index_i64 written as a match
+    {"id": "C08-benign-index-i64-match", "prop": "C08", "benign": True,
+     "edits": [("src/surface.rs", "    index.try_into().unwrap_or(i64::MAX)", "    match index.try_into() {\n        Ok(index) => index,\n        Err(_) => i64::MAX,\n    }")]},
+    # delegation through a local
+    {"id": "C08-benign-delegate-through-local", "prop": "C08", "benign": True,
+     "edits": [("src/surface.rs", "                    let end = index_i64(self.end);\n                    range_bounds(..=end, size)", "                    let end = index_i64(self.end);\n                    let bounds = range_bounds(..=end, size);\n                    bounds")]},
+    # the signed resolution extracted into one private routine shared by the five impls
+    {"id": "C08-benign-signed-shared-helper", "prop": "C08", "benign": True,
+     "edits": [("src/surface.rs", "                    // resolve in i64, narrower types would wrap for long axes\n                    let index = self as i64;\n                    let size = size as i64;\n" + _SGN, "                    // resolve in i64, narrower types would wrap for long axes\n                    signed_index_bounds(self as i64, size)"),
+               ("src/surface.rs", "/// Convert index to `i64`, indices that do not fit are beyond any axis and saturate\n", "fn signed_index_bounds(index: i64, size: usize) -> Option<(usize, usize)> {\n    let size = size as i64;\n    if index < -size || index >= size {\n        None\n    } else {\n        let start = if index < 0 { index + size } else { index };\n        Some((start as usize, start as usize + 1))\n    }\n}\n\n/// Convert index to `i64`, indices that do not fit are beyond any axis and saturate\n")]},
+    {"id": "C08-signed-shared-helper-off-by-one", "prop": "C08", "expect": "POST",
+     "edits": [("src/surface.rs", "                    // resolve in i64, narrower types would wrap for long axes\n                    let index = self as i64;\n                    let size = size as i64;\n" + _SGN, "                    // resolve in i64, narrower types would wrap for long axes\n                    signed_index_bounds(self as i64, size)"),
+               ("src/surface.rs", "/// Convert index to `i64`, indices that do not fit are beyond any axis and saturate\n", "fn signed_index_bounds(index: i64, size: usize) -> Option<(usize, usize)> {\n    let size = size as i64;\n    if index < -size || index > size {\n        None\n    } else {\n        let start = if index < 0 { index + size } else { index };\n        Some((start as usize, start as usize + 1))\n    }\n}\n\n/// Convert index to `i64`, indices that do not fit are beyond any axis and saturate\n")]},
+]
+
+_RANGE_DELEG = "                    range_bounds(\n                        Range {\n                            start: index_i64(self.start),\n                            end: index_i64(self.end),\n                        },\n                        size,\n                    )"
+_IDX_DOC = "/// Convert index to `i64`, indices that do not fit are beyond any axis and saturate\n"
+MUTANTS += [
+    # the bound conversion of `a..b` extracted into one generic private helper (ten callers); destructured selector
+    {"id": "C08-benign-range-conversion-helper", "prop": "C08", "benign": True,
+     "edits": [("src/surface.rs", _RANGE_DELEG, "                    range_bounds(range_i64(self), size)"),
+               ("src/surface.rs", _IDX_DOC, "fn range_i64<T: TryInto<i64>>(range: Range<T>) -> Range<i64> {\n    let Range { start, end } = range;\n    index_i64(start)..index_i64(end)\n}\n\n" + _IDX_DOC)]},
+    {"id": "C08-range-conversion-helper-shifted", "prop": "C08", "expect": "DELEGATE-KIND",
+     "edits": [("src/surface.rs", _RANGE_DELEG, "                    range_bounds(range_i64(self), size)"),
+               ("src/surface.rs", _IDX_DOC, "fn range_i64<T: TryInto<i64>>(range: Range<T>) -> Range<i64> {\n    let Range { start, end } = range;\n    index_i64(start)..index_i64(end).saturating_add(1)\n}\n\n" + _IDX_DOC)]},
+    # inline saturating conversion instead of index_i64
+    {"id": "C08-benign-range-from-inline-conversion", "prop": "C08", "benign": True,
+     "edits": [("src/surface.rs", "range_bounds(RangeFrom { start: index_i64(self.start) }, size)", "range_bounds(RangeFrom { start: i64::try_from(self.start).unwrap_or(i64::MAX) }, size)")]},
+]
